@@ -261,6 +261,60 @@ def frob(a, k=1):
     return [x % q for x in res]
 
 
+def f2_cuberoot(c):
+    """some cube root in Fq2, or None (3 divides q^2-1 exactly once)"""
+    if c == (0, 0):
+        return (0, 0)
+    n = q * q - 1
+    m = n // 3
+    if f2pow(c, m) != (1, 0):
+        return None
+    x = f2pow(c, pow(3, -1, m))
+    assert f2mul(f2mul(x, x), x) == c
+    return x
+
+
+@lru_cache(maxsize=None)
+def _f12_ts_consts():
+    n = q**12 - 1
+    s = 0
+    while n % 2 == 0:
+        n //= 2
+        s += 1
+    z = list(W)
+    k = 1
+    while fpow(z, (q**12 - 1) // 2) == ONE:
+        k += 1
+        z = [k, 1] + [0] * 10
+    return s, n, tuple(fpow(z, n))
+
+
+def f12_sqrt(a):
+    """Tonelli-Shanks in Fq12 (2-adicity of q^12-1 is 4): some square root, or None"""
+    if not any(a):
+        return list(ZERO)
+    s, m, c = _f12_ts_consts()
+    c = list(c)
+    t = fpow(a, m)
+    root = fpow(a, (m + 1) // 2)
+    M = s
+    while t != ONE:
+        i, t2 = 0, t
+        while t2 != ONE:
+            t2 = fmul(t2, t2)
+            i += 1
+            if i >= M:
+                return None
+        b = c
+        for _ in range(M - i - 1):
+            b = fmul(b, b)
+        M = i
+        c = fmul(b, b)
+        t = fmul(t, c)
+        root = fmul(root, b)
+    return root if fmul(root, root) == [x % q for x in a] else None
+
+
 # tower <-> flat.  crate: Fq12 = c0 + c1 v + c2 v^2 (Fq4), Fq4 = c0 + c1 s (Fq2), Fq2 = c0 + c1 u,
 # v^3 = s, s^2 = u, u^2 = -2  =>  v = w, s = w^3, u = w^6; coefficient c[i].c[j].c[k] sits at w^(i+3j+6k).
 # to_slice writes c2|c1|c0, each Fq4 as c1|c0, each Fq2 as c1|c0  => exponents below.
